@@ -68,3 +68,23 @@ func zzC15_silent() {
 	}
 	zzReached("end")
 }
+
+// truncated input: a directory that claims three entries, the stream ends at any point; every level gives the same
+// outcome as the default level and none panics
+func zzC15_trunc() {
+	t := zzNewTiff(8+2+3*12+4+8, false, 8)
+	t.dir(8, 3, 0)
+	t.entShort(8, 0, 0x0100, zzU16("w"))
+	t.entShort(8, 1, 0x0112, zzU16("o"))
+	t.ent(8, 2, 0x0131, 2, 6, 50)
+	copy(t.b[50:], "abcde\x00")
+	n := zzInt("cut")
+	zzAssume(n >= 32 && n <= len(t.b))
+	n = int(zzConc(uint64(n), 64))
+	a, ea := DecodeTiff(zzReaderOf(t.b[:n]))
+	SetLogger(io.Discard, zzLevel())
+	b, eb := DecodeTiff(zzReaderOf(t.b[:n]))
+	zzAssert((ea == nil) == (eb == nil), "truncated input: the log level does not change the error")
+	zzAssert(a.Orientation == b.Orientation && a.ImageWidth == b.ImageWidth && a.Software == b.Software, "truncated input: the log level does not change the decoded fields")
+	zzReached("end")
+}
